@@ -1,14 +1,163 @@
 import json
 from propbase import Prop, COMMON_TRUSTED
-from coqterm import cbool
+from coqterm import cbool, clist
 from codeccommon import (cjv, cjv_opt, cwval, cobs, cobs_opt, WTY, jv_shrinks, drop_keys, deep)
 
 
 def _outcome(c):
+    if c["k"] == "seq":
+        os_ = [_outcome(s) for s in c.get("steps") or []]
+        for o in ("panic", "accepted"):
+            if o in os_:
+                return o
+        return "rejected"
     if c["k"] == "raw":
         return "panic" if c.get("pan") else ("accepted" if c.get("acc") else "rejected")
     o = c.get("o1") or {}
     return {"val": "accepted", "err": "rejected", "panic": "panic"}.get(o.get("r"), "?")
+
+
+def _text_is_input(c):
+    """dec/parse cases whose text is not a print of the JSON value [j] (invalid UTF-8 inside
+    strings, which encoding/json's tokenizer has already replaced in [j]): the bytes are the input"""
+    return c["k"] in ("dec", "parse") and (c.get("cls") or "").startswith("raw:utf8") and bool(c.get("text"))
+
+
+def _text_shrinks(c, drop):
+    """byte-level deletions of the text of a case (halves, quarters, ... single bytes)"""
+    b = bytes.fromhex(c["text"])
+    base = drop_keys(c, drop)
+    n = len(b)
+    step = max(n // 2, 1)
+    while step >= 1:
+        for i in range(0, n, step):
+            yield dict(base, text=(b[:i] + b[i + step:]).hex())
+        if step == 1:
+            break
+        step //= 2
+
+
+# ---- coarse shrinking: blank every scalar at once (hex strings of 64/128 digits stay) ------------
+
+def _hexlike(h):
+    """trace form of a string (hex of its bytes): is the string itself 64 or 128 lower-case hex digits?"""
+    if len(h) not in (128, 256):
+        return False
+    try:
+        t = bytes.fromhex(h)
+    except ValueError:
+        return False
+    return all(c in b"0123456789abcdef" for c in t)
+
+
+def _jv_leaves(j, path=(), top=True):
+    if isinstance(j, list):
+        for i, x in enumerate(j):
+            if top and i == 0:
+                continue            # the label
+            yield from _jv_leaves(x, path + (i,), False)
+    elif isinstance(j, dict) and "o" in j:
+        for i, kv in enumerate(j["o"]):
+            yield from _jv_leaves(kv[1], path + (i,), False)
+    else:
+        yield path
+
+
+def _jv_blank(j, keep=None, path=(), top=True):
+    if isinstance(j, list):
+        return [x if (top and i == 0) else _jv_blank(x, keep, path + (i,), False) for i, x in enumerate(j)]
+    if isinstance(j, dict) and "o" in j:
+        return {"o": [[kv[0], _jv_blank(kv[1], keep, path + (i,), False)] for i, kv in enumerate(j["o"])]}
+    if path == keep:
+        return j
+    if isinstance(j, dict) and "s" in j:
+        return j if _hexlike(j["s"]) else {"s": ""}
+    if isinstance(j, dict) and ("i" in j or "f" in j):
+        return {"i": [False, "0"]}
+    return j
+
+
+_X_EV = (("content", ""), ("sig", ""), ("pk", ""), ("id", ""), ("ts", 0), ("kind", 0), ("tags", []))
+_X_TOP = (("sub", ""), ("msg", ""), ("id", ""))
+_X_F = ("ids", "authors", "kinds", "tags", "since", "until", "limit")
+
+
+def _x_leaves(v):
+    if isinstance(v.get("e"), dict):
+        for f, _ in _X_EV:
+            yield ("e", f)
+    for f, _ in _X_TOP:
+        yield (f,)
+    for i, f in enumerate(v.get("fs") or []):
+        if isinstance(f, dict):
+            for fld in _X_F:
+                yield ("fs", i, fld)
+    if isinstance(v.get("f"), dict):
+        for fld in _X_F:
+            yield ("f", fld)
+
+
+def _x_blank(v, keep=None):
+    v = deep(v)
+    e = v.get("e")
+    if isinstance(e, dict):
+        for f, z in _X_EV:
+            if ("e", f) != keep and not (isinstance(e.get(f), str) and _hexlike(e[f])) and not (f == "tags" and e.get(f) is None):
+                e[f] = deep(z)
+    for f, z in _X_TOP:
+        if (f,) != keep and isinstance(v.get(f), str) and not _hexlike(v[f]):
+            v[f] = z
+    for i, f in enumerate(v.get("fs") or []):
+        if isinstance(f, dict):
+            for fld in _X_F:
+                if ("fs", i, fld) != keep:
+                    f[fld] = None
+    if isinstance(v.get("f"), dict):
+        for fld in _X_F:
+            if ("f", fld) != keep:
+                v["f"][fld] = None
+    return v
+
+
+def _blanks(c, limit=40):
+    """coarse shrinks of one dec / parse / enc case: everything blank, then everything but one leaf"""
+    if c["k"] in ("dec", "parse") and c.get("j") is not None and not _text_is_input(c):
+        base = drop_keys(c, ("text", "o1", "o2", "enc", "len"))
+        j = c["j"]
+        b = _jv_blank(j)
+        if b != j:
+            yield dict(base, j=b)
+            for n, p in enumerate(_jv_leaves(j)):
+                if n >= limit:
+                    break
+                b2 = _jv_blank(j, p)
+                if b2 != j and b2 != b:
+                    yield dict(base, j=b2)
+    elif c["k"] == "enc":
+        base = {"k": "enc", "cls": c.get("cls", "")}
+        v = c["v"]
+        b = _x_blank(v)
+        if b != v:
+            yield dict(base, v=b)
+            for n, p in enumerate(_x_leaves(v)):
+                if n >= limit:
+                    break
+                b2 = _x_blank(v, p)
+                if b2 != v and b2 != b:
+                    yield dict(base, v=b2)
+
+
+def cl_utf8(c):
+    return (c.get("cls") or "").startswith("raw:utf8")
+
+
+def _event_of(step):
+    """the event a step's accepted value carries, if any (enc: the value marshalled)"""
+    if step["k"] == "enc":
+        v = step.get("v")
+    else:
+        v = (step.get("o1") or {}).get("v")
+    return (v or {}).get("e")
 
 
 class C10(Prop):
@@ -24,17 +173,26 @@ class C10(Prop):
     gen_names = ("g_cevent_", "g_creq_", "g_cclose_", "g_cauth_", "g_ccount_", "g_seose_", "g_sevent_", "g_snotice_",
                  "g_sok_", "g_sauth_", "g_scount_", "g_sclosed_", "g_event_nfields_bad", "g_fkey_", "g_MsgLabel",
                  "g_MachineReadablePrefix", "g_client_msg_regexp", "message.go")
-    rule = ("55% JSON values generated per Go target type (event, filter, 5 client, 7 server messages; right shape with 0-2 "
+    rule = ("50% JSON values generated per Go target type (event, filter, 5 client, 7 server messages; right shape with 0-2 "
             "point mutations: wrong type, dropped/extra/duplicated/null element or member, upper-cased key, swapped label; "
             "members shuffled; numbers from small integers, int64/uint64 boundaries, -0, 400-digit, fractional/exponent "
             "forms; strings with quotes, controls, multi-byte and astral characters), printed with random insignificant white "
             "space and \\u escapes and fed to json.Unmarshal on the typed target or to ParseClientMsg (8% with leading "
-            "white space, 4% with an escaped label), then Marshal and decode again; 20% Go values built directly (70% "
+            "white space, 4% with an escaped label), then Marshal and decode again (6% of these "
+            "texts with invalid UTF-8 injected, see below); 20% Go values built directly (70% "
             "well-formed, 30% with nil slices/pointers, un-normalised reasons, illegal tag names), Marshal then Unmarshal; "
-            "25% malformed texts (random bytes, truncations, byte mutations, nesting depth 50..100000, 400-digit numbers, "
-            "invalid UTF-8) under recover(): the ones that still are shallow valid JSON are compared in full, the others "
-            "only for 'no panic' and 'rejected'.  Non-trivial = the text was accepted or the case is a malformed text; "
-            "distinct = distinct input.")
+            "20% malformed texts (random bytes, truncations, byte mutations, nesting depth 50..100000, 400-digit numbers, "
+            "invalid UTF-8: a quarter of them messages of any type printed with a raw non-UTF-8 byte sequence -- lone 0xff, "
+            "lead byte alone, truncated form, encoded surrogate, > U+10FFFF, over-long form, lone continuation -- at a random "
+            "position of 15/35/70% of their strings and member names, with and without escapes elsewhere) under recover(): "
+            "the ones that still are shallow valid JSON are compared in full, the others only for 'no panic' and "
+            "'rejected'; 10% histories of 2-4 related inputs run one after the other inside one case and one process (half "
+            "Go values Marshal->Unmarshal, half texts decode->Marshal->decode): a base and variants that repeat it, change "
+            "one field / one scalar leaf, get a point mutation, or carry the same payload under a kindred message type; "
+            "every step is judged by itself by model and oracle.  Event ids, public keys and signatures are 64/64/128 fresh "
+            "hex digits in 40% of the events (never shared between cases; kept by most variants inside a history); "
+            "-replay runs every case of a multi-case file in a process of its own.  Non-trivial = a text (of a step) was "
+            "accepted or the case is a malformed text; distinct = distinct input.")
     trusted_base = COMMON_TRUSTED + [
         "encoding/json's text layer (tokenising, string unescaping and UTF-8 coercion, white space, depth limit) and regexp: "
         "the model starts from the generic JSON value; the harness reads texts back with encoding/json's own tokenizer",
@@ -43,10 +201,15 @@ class C10(Prop):
         "strings of well-formed values are valid UTF-8 (json.Marshal replaces invalid bytes by U+FFFD; generated values are valid UTF-8)",
         "the bare text null (a no-op by Go's Unmarshaler convention) is not claimed (DESIGN.md section 9)",
         "Go map iteration order is irrelevant: filters are compared with their tag maps as maps, objects as maps",
+        "the codec is modelled as a function of its input alone; histories (k=seq) test exactly that: process-wide state "
+        "shared by the steps of one case makes a step fail; state shared between different cases of one generation run "
+        "is not looked for (event ids are fresh per case)",
     ]
 
     def to_coq(self, I, c):
         k = c["k"]
+        if k == "seq":
+            return "(CSeq %s)" % clist(c.get("steps") or [], lambda s: self.to_coq(I, s), "case")
         if k == "dec":
             return "(CDec %s %s %s %s %s)" % (WTY[c["ty"]], cjv(I, c.get("j")), cobs(I, c["o1"]),
                                              cjv_opt(I, c.get("enc"), "enc" in c), cobs_opt(I, c.get("o2")))
@@ -59,10 +222,14 @@ class C10(Prop):
         return "(CRaw %s %s)" % (cbool(c.get("acc", False)), cbool(c.get("pan", False)))
 
     def _input(self, c):
+        if c["k"] == "seq":
+            return {"k": "seq", "steps": [self._input(s) for s in c.get("steps") or []]}
         if c["k"] == "enc":
             return {"k": "enc", "v": c["v"]}
         if c["k"] == "raw":
             return {"k": "raw", "ty": c.get("ty"), "text": c.get("text")}
+        if _text_is_input(c):
+            return {"k": c["k"], "ty": c.get("ty"), "text": c.get("text")}
         return {"k": c["k"], "ty": c.get("ty"), "lead": c.get("lead", False), "esc": c.get("esc", False), "j": c.get("j")}
 
     def nontrivial_key(self, c):
@@ -71,6 +238,9 @@ class C10(Prop):
         return None
 
     def dedup_key(self, c):
+        if c["k"] == "seq":
+            return json.dumps(["seq", c.get("cls"), sorted(set((s["k"], s.get("ty") or (s.get("v") or {}).get("t") or "")
+                                                               for s in c.get("steps") or []))])
         return json.dumps([c["k"], c.get("ty"), _outcome(c)])
 
     def summarize(self, c):
@@ -81,6 +251,46 @@ class C10(Prop):
 
     def shrink(self, c):
         k = c["k"]
+        if k == "seq":
+            steps = c.get("steps") or []
+            base = {"k": "seq", "cls": c.get("cls", "")}
+            # one step alone (no longer a history), then without one step, then a smaller step
+            if len(steps) > 1:
+                for s in steps:
+                    yield s
+                if len(steps) > 2:
+                    for i in range(len(steps)):
+                        for j in range(i + 1, len(steps)):
+                            yield dict(base, steps=[steps[i], steps[j]])
+                for i in range(len(steps)):
+                    yield dict(base, steps=steps[:i] + steps[i + 1:])
+            elif len(steps) == 1:
+                yield steps[0]
+            # every step blank at once, then one step blank, then one step blank but for one leaf
+            firsts = [next(_blanks(s), None) for s in steps]
+            if any(f is not None for f in firsts):
+                yield dict(base, steps=[f if f is not None else s for f, s in zip(firsts, steps)])
+            if len(steps) > 1:
+                for i, s in enumerate(steps):
+                    for n, s2 in enumerate(_blanks(s, limit=24 // len(steps))):
+                        yield dict(base, steps=steps[:i] + [s2] + steps[i + 1:])
+            per = max(100 // max(len(steps), 1), 10)
+            self._in_seq = True
+            try:
+                for i, s in enumerate(steps):
+                    for n, s2 in enumerate(self.shrink(s)):
+                        if n >= per:
+                            break
+                        yield dict(base, steps=steps[:i] + [s2] + steps[i + 1:])
+            finally:
+                self._in_seq = False
+            return
+        if _text_is_input(c):
+            if not c["text"].startswith("rep:"):
+                yield from _text_shrinks(c, ("j", "o1", "o2", "enc", "len", "lead", "esc"))
+            return
+        if k in ("dec", "parse", "enc") and not getattr(self, "_in_seq", False):
+            yield from _blanks(c, limit=20)
         if k in ("dec", "parse"):
             base = drop_keys(c, ("text", "o1", "o2", "enc", "len"))
             for j in jv_shrinks(c.get("j")):
@@ -98,16 +308,7 @@ class C10(Prop):
                     if 0 < m < n:
                         yield dict(drop_keys(c, ("acc", "pan", "len")), text=":".join([f[0], str(m)] + f[2:]))
                 return
-            b = bytes.fromhex(t)
-            base = drop_keys(c, ("acc", "pan", "len"))
-            n = len(b)
-            step = max(n // 2, 1)
-            while step >= 1:
-                for i in range(0, n, step):
-                    yield dict(base, text=(b[:i] + b[i + step:]).hex())
-                if step == 1:
-                    break
-                step //= 2
+            yield from _text_shrinks(c, ("acc", "pan", "len"))
         elif k == "enc":
             v = c["v"]
             base = {"k": "enc", "cls": c.get("cls", "")}
@@ -136,13 +337,59 @@ class C10(Prop):
                             v2 = deep(v)
                             v2["fs"][i][fld] = None
                             yield dict(base, v=v2)
+            # scalars: strings to the empty string, numbers to 0
+            e = v.get("e")
+            if isinstance(e, dict):
+                for fld in ("content", "sig", "pk", "id"):
+                    if e.get(fld):
+                        v2 = deep(v)
+                        v2["e"][fld] = ""
+                        yield dict(base, v=v2)
+                for fld in ("ts", "kind"):
+                    if e.get(fld):
+                        v2 = deep(v)
+                        v2["e"][fld] = 0
+                        yield dict(base, v=v2)
+            for fld in ("sub", "msg", "id"):
+                if v.get(fld):
+                    yield dict(base, v=dict(deep(v), **{fld: ""}))
 
     def distribution(self, cases):
         d = {"by_kind": {}, "by_class": {}, "outcome": {}, "malformed_inputs": 0, "malformed_not_json": 0,
              "texts_accepted": 0, "texts_total": 0, "leading_ws_texts": 0, "escaped_label_texts": 0,
-             "values_wellformed": 0, "values_other": 0, "max_text_len": 0}
+             "values_wellformed": 0, "values_other": 0, "max_text_len": 0,
+             "invalid_utf8_texts": 0, "invalid_utf8_texts_accepted": 0,
+             "histories": 0, "history_steps": 0, "history_step_by_kind": {}, "history_step_by_change": {},
+             "histories_reusing_an_event_id_with_other_fields_changed": 0,
+             "events_with_64_hex_id": 0}
         for c in cases:
             k = c["k"]
+            if k == "seq":
+                steps = c.get("steps") or []
+                d["histories"] += 1
+                d["history_steps"] += len(steps)
+                seen = {}
+                reuse = False
+                for s in steps:
+                    d["history_step_by_kind"][s["k"]] = d["history_step_by_kind"].get(s["k"], 0) + 1
+                    ch = s.get("cls", "")
+                    d["history_step_by_change"][ch] = d["history_step_by_change"].get(ch, 0) + 1
+                    e = _event_of(s)
+                    if e and len(e.get("id", "")) == 128:   # hex of 64 bytes
+                        d["events_with_64_hex_id"] += 1
+                        body = json.dumps(e, sort_keys=True)
+                        if seen.setdefault(e["id"], body) != body:
+                            reuse = True
+                if reuse:
+                    d["histories_reusing_an_event_id_with_other_fields_changed"] += 1
+            else:
+                e = _event_of(c) if k in ("dec", "parse", "enc") else None
+                if e and len(e.get("id", "")) == 128:
+                    d["events_with_64_hex_id"] += 1
+            if cl_utf8(c):
+                d["invalid_utf8_texts"] += 1
+                if _outcome(c) == "accepted":
+                    d["invalid_utf8_texts_accepted"] += 1
             d["by_kind"][k] = d["by_kind"].get(k, 0) + 1
             cl = c.get("cls", "")
             d["by_class"][cl] = d["by_class"].get(cl, 0) + 1
